@@ -105,6 +105,8 @@ impl Allocator {
             return Err(self.del_err(e));
         }
 
+        #[cfg(specs_verif)]
+        verif_sched::verif_yield(verif_sched::KILL_BEFORE_ADD);
         self.killed.add_atomic(e.id());
 
         Ok(())
@@ -155,7 +157,11 @@ impl Allocator {
             atomic_increment(&self.max_id).expect("No entity left to allocate") as Index
         });
 
+        #[cfg(specs_verif)]
+        verif_sched::verif_yield(verif_sched::ALLOC_BEFORE_RAISE);
         self.raised.add_atomic(id);
+        #[cfg(specs_verif)]
+        verif_sched::verif_yield(verif_sched::ALLOC_BEFORE_GEN);
         let gen = self
             .generation(id)
             .map(|gen| if gen.is_alive() { gen } else { gen.raised() })
@@ -568,8 +574,14 @@ impl Extend<Index> for EntityCache {
 /// checked overflow, returning `None` instead.
 fn atomic_increment(i: &AtomicUsize) -> Option<usize> {
     use std::usize;
+    #[cfg(specs_verif)]
+    let _verif_exit = verif_sched::YieldOnExit(verif_sched::INC_AFTER_CAS);
+    #[cfg(specs_verif)]
+    verif_sched::verif_yield(verif_sched::INC_BEFORE_LOAD);
     let mut prev = i.load(Ordering::Relaxed);
     while prev != usize::MAX {
+        #[cfg(specs_verif)]
+        verif_sched::verif_yield(verif_sched::INC_BEFORE_CAS);
         match i.compare_exchange_weak(prev, prev + 1, Ordering::Relaxed, Ordering::Relaxed) {
             Ok(x) => return Some(x),
             Err(next_prev) => prev = next_prev,
@@ -582,14 +594,128 @@ fn atomic_increment(i: &AtomicUsize) -> Option<usize> {
 /// Resembles a `fetch_sub(1, Ordering::Relaxed)` with
 /// checked underflow, returning `None` instead.
 fn atomic_decrement(i: &AtomicUsize) -> Option<usize> {
+    #[cfg(specs_verif)]
+    let _verif_exit = verif_sched::YieldOnExit(verif_sched::DEC_AFTER_CAS);
+    #[cfg(specs_verif)]
+    verif_sched::verif_yield(verif_sched::DEC_BEFORE_LOAD);
     let mut prev = i.load(Ordering::Relaxed);
     while prev != 0 {
+        #[cfg(specs_verif)]
+        verif_sched::verif_yield(verif_sched::DEC_BEFORE_CAS);
         match i.compare_exchange_weak(prev, prev - 1, Ordering::Relaxed, Ordering::Relaxed) {
             Ok(x) => return Some(x),
             Err(next_prev) => prev = next_prev,
         }
     }
     None
+}
+
+/// Verification hooks (compiled only with `--cfg specs_verif`): yield points
+/// between the atomic steps of the shared-access (`&self`) allocator paths.
+/// `verif_yield` does nothing unless a scheduler callback is installed.
+#[cfg(specs_verif)]
+pub mod verif_sched {
+    use std::sync::{
+        atomic::{AtomicBool, Ordering},
+        Arc, RwLock,
+    };
+
+    /// `atomic_decrement`: before the load of `EntityCache::len`.
+    pub const DEC_BEFORE_LOAD: u32 = 1;
+    /// `atomic_decrement`: between the load (or a failed CAS) and the CAS.
+    pub const DEC_BEFORE_CAS: u32 = 2;
+    /// `atomic_decrement`: on return, i.e. after the CAS (or after `0` was
+    /// observed) and before `pop_atomic` reads `cache[x - 1]`.
+    pub const DEC_AFTER_CAS: u32 = 3;
+    /// `atomic_increment`: before the load of `max_id`.
+    pub const INC_BEFORE_LOAD: u32 = 11;
+    /// `atomic_increment`: between the load (or a failed CAS) and the CAS.
+    pub const INC_BEFORE_CAS: u32 = 12;
+    /// `atomic_increment`: on return, i.e. after the CAS.
+    pub const INC_AFTER_CAS: u32 = 13;
+    /// `allocate_atomic`: before `raised.add_atomic`.
+    pub const ALLOC_BEFORE_RAISE: u32 = 21;
+    /// `allocate_atomic`: before the generation read.
+    pub const ALLOC_BEFORE_GEN: u32 = 22;
+    /// `kill_atomic`: between `is_alive` and `killed.add_atomic`.
+    pub const KILL_BEFORE_ADD: u32 = 31;
+
+    /// The scheduler callback; it receives the identifier of the yield point.
+    pub type Callback = Arc<dyn Fn(u32) + Send + Sync + 'static>;
+
+    static INSTALLED: AtomicBool = AtomicBool::new(false);
+    static CALLBACK: RwLock<Option<Callback>> = RwLock::new(None);
+
+    /// Installs the process-global scheduler callback.
+    pub fn install(cb: Callback) {
+        *CALLBACK.write().unwrap_or_else(|e| e.into_inner()) = Some(cb);
+        INSTALLED.store(true, Ordering::SeqCst);
+    }
+
+    /// Removes the scheduler callback; yield points are no-ops again.
+    pub fn uninstall() {
+        INSTALLED.store(false, Ordering::SeqCst);
+        *CALLBACK.write().unwrap_or_else(|e| e.into_inner()) = None;
+    }
+
+    /// A yield point: calls the installed scheduler, if any.
+    #[inline]
+    pub fn verif_yield(point: u32) {
+        if INSTALLED.load(Ordering::Relaxed) {
+            let cb = CALLBACK.read().unwrap_or_else(|e| e.into_inner()).clone();
+            if let Some(cb) = cb {
+                cb(point);
+            }
+        }
+    }
+
+    /// Yields when dropped (used for "on return" yield points).
+    pub struct YieldOnExit(pub u32);
+
+    impl Drop for YieldOnExit {
+        fn drop(&mut self) {
+            verif_yield(self.0);
+        }
+    }
+}
+
+/// Read-only copy of the allocator's state (`--cfg specs_verif` only).
+#[cfg(specs_verif)]
+#[derive(Clone, Debug, PartialEq, Eq)]
+pub struct VerifAllocDump {
+    /// The generation stored for every index (0 = never used, < 0 = dead).
+    pub generations: Vec<i32>,
+    /// Members of the `alive` bit set, ascending.
+    pub alive: Vec<Index>,
+    /// Members of the `raised` bit set, ascending.
+    pub raised: Vec<Index>,
+    /// Members of the `killed` bit set, ascending.
+    pub killed: Vec<Index>,
+    /// The free-list vector (entries at or beyond `len` are stale).
+    pub cache: Vec<Index>,
+    /// The atomic length of the free list.
+    pub len: usize,
+    /// The atomic counter of never-used indices.
+    pub max_id: usize,
+}
+
+#[cfg(specs_verif)]
+impl EntitiesRes {
+    /// Returns a copy of the allocator's state; changes nothing.
+    pub fn verif_dump(&self) -> VerifAllocDump {
+        use hibitset::BitSetLike;
+
+        let a = &self.alloc;
+        VerifAllocDump {
+            generations: a.generations.iter().map(|g| g.id()).collect(),
+            alive: (&a.alive).iter().collect(),
+            raised: (&a.raised).iter().collect(),
+            killed: (&a.killed).iter().collect(),
+            cache: a.cache.cache.clone(),
+            len: a.cache.len.load(Ordering::Relaxed),
+            max_id: a.max_id.load(Ordering::Relaxed),
+        }
+    }
 }
 
 #[cfg(test)]
